@@ -533,8 +533,14 @@ func (fr *frame) lenOf(v TV, st *State) string {
 			ks := SortOf(mt.Key())
 			d := fr.s.getMap(st, dn, "(Array Int (Array "+ks+" Bool))")
 			f := fr.s.declareFun("msize:"+sortTag(ks), []string{"(Array " + ks + " Bool)"}, "Int")
-			t := fmt.Sprintf("(%s (select %s %s))", f, d, v.T)
+			// a declared constant for the domain so that it can be used in a pattern
+			dom := fr.s.fresh("dom", "(Array "+ks+" Bool)")
+			fr.s.emit(fmt.Sprintf("(assert (= %s (select %s %s)))", dom, d, v.T))
+			t := fmt.Sprintf("(%s %s)", f, dom)
 			fr.s.assume(st, fmt.Sprintf("(>= %s 0)", t))
+			// size 0 <=> no key; a nil map has no keys
+			fr.s.assume(st, fmt.Sprintf("(=> (or (= %s 0) (= %s 0)) (forall ((kk %s)) (! (not (and (not (= %s 0)) (select %s kk))) :pattern ((select %s kk)))))", t, v.T, ks, v.T, dom, dom))
+			fr.s.assume(st, fmt.Sprintf("(=> (= %s 0) (= %s 0))", v.T, t))
 			return t
 		}
 	}
